@@ -56,6 +56,31 @@ def prove_run(ctx, want, forge):
     return violations, cov
 
 
+def sched_violations(ctx, classes):
+    """The scheduled-trace oracle of the C11 harness (honest traces laid out by the real AluAir::trace_to_matrix
+    incl. packed Horner rows, lanes, separators; single-cell tampering of *matrix* cells — intermediates and b^2
+    columns that no `Traces`-level forgery can reach). Returns the violations of the given classes."""
+    tier, seed, work = ctx["tier"], ctx["seed"], ctx["work"]
+    n_sched, tampers = (1500, 12) if tier == "quick" else (60000, 24)
+    out = f"{work}/sched"
+    rc, o = ctx["sh"]([ctx["harness"], "alusched", "--seed", str(seed), "--cases", str(n_sched), "--tampers", str(tampers), "--out", out], timeout=7200)
+    if rc != 0:
+        return [{"class": "harness-crash", "what": f"harness alusched exited {rc}: {o[-300:]}", "replay": {}, "no_input": True}], 0
+    rep = json.load(open(f"{out}/alusched.report.json"))
+    return [{"class": v["class"], "what": v["kind"], "replay": v["replay"]} for v in rep["violations"] if v["class"] in classes], rep["evaluations"]
+
+
+def c10_run(ctx):
+    violations, cov = prove_run(ctx, "C10", 0)
+    if not ctx.get("replay"):
+        v2, n = sched_violations(ctx, {"honest-scheduled-trace-rejected", "trace-build-panic", "height-mismatch"})
+        violations += v2
+        if cov:
+            cov["evaluations"] += n
+            cov["rule"] += "; plus honest scheduled ALU traces (real trace_to_matrix: packed Horner arities, lanes, separators) that the real AluAir::eval must accept"
+    return violations, cov
+
+
 CHECK = {
     "lean_modules": ["P3R.Props.C10", "P3R.Props.C10Full"],
     "theorems": ["P3R.C10.record_row_add", "P3R.C10.record_row_mul", "P3R.C10.record_row_muladd", "P3R.C10.record_row_bool",
@@ -63,7 +88,7 @@ CHECK = {
                  # model-level completeness: the honest trace meets both acceptance conditions of C04.accepted_sat
                  "P3R.C10.holds_rowOk", "P3R.C10.honest_rows", "P3R.C10.honest_tupleNet", "P3R.C10.honest_bus",
                  "P3R.C10.honest_accepted", "P3R.C10.run_honest_accepted"],
-    "run": lambda ctx: prove_run(ctx, "C10", 0),
+    "run": c10_run,
     "trusted_base": ["STARK completeness: a trace satisfying all row constraints with a balanced bus is provable (also exercised for real by every run)"],
     "assumptions": ["BabyBear D=1 circuits of primitive ops and hints; scheduled/packed ALU layout is tied by C11's scheduled-trace oracle, not by a Lean schedule model"],
 }
